@@ -5,8 +5,8 @@ from . import checks
 
 TEXT = {
  "C02": ("model_checking", "Closed/Symmetric/Owner evaluated by TLC on the object graph recorded after every call of every TLC-enumerated history (MC_Gfa, all maximal histories up to the depth bound over the GFA1/GFA2 catalogues) and of seeded random/document-first histories; plus equality of every back-reference collection with the function of the document.", "5 C02"),
- "C05": ("model_checking", "After every call the written lines (bag, tags as sets), header, placeholders and back-references of the real Gfa must equal those of the text-level Step of Gfa.tla (exact removal closure, dropped mentions, rename substitution); histories enumerated exhaustively by TLC up to the depth bound plus random ones.", "5 C05"),
- "C08": ("model_checking", "FailStutters is an action property of MC_Gfa checked by TLC; in every validated trace an event whose call raised must have an observation digest identical to the previous one (full projection: lines, references, back-references, header, version, names, lookups, topology).", "5 C08"),
+ "C05": ("model_checking", "After every call the written lines (bag, tags as sets), header, placeholders and back-references of the real Gfa must equal those of the text-level Step of Gfa.tla (exact removal closure, dropped mentions, rename substitution, edits of positional fields of connected lines (SetField), clones added under another identifier, objects disconnected-edited-added again); histories enumerated exhaustively by TLC up to the depth bound plus random, document-first, edit and clone histories.", "5 C05, 10.11"),
+ "C08": ("model_checking", "FailStutters is an action property of MC_Gfa checked by TLC; in every validated trace an event whose call raised must have an observation digest identical to the previous one (full projection: lines, references, back-references, header, version, names, lookups, topology); in half of the histories the answers of five read-only query groups (incl. datatypes of absent tags, header counters) are also compared across every refused call.", "5 C08, 10.11"),
  "C09": ("model_checking", "UniqueIds invariant on the spec; on every recorded state the name lists and line()/segment()/try_get_line() for every identifier of the universe are compared with the document; add/rename onto a used identifier must return NotUniqueError.", "5 C09"),
  "C01": ("exploration", "Doc.tla: valid documents generated in TLA+ from a line catalogue x tag spelling variants, writer normal form Canon(doc) as a set of allowed bags; TLC enumerates documents x validation levels x version modes x entry points (string, list, file LF/CRLF/no final newline); the records written by gfapy (str, to_file, second round) are compared by TLC with Canon; seeded random documents with tags of every datatype.", "5 C01"),
  "C03": ("model_checking", "MC_Arrival: TLC enumerates every valid document (subset of the catalogue within size bounds, validity decided in TLA+) and every arrival order, checks confluence on the specification, and every order is replayed with add_line, observed after every delivery and validated against the document functions; strict documents are also compared by the digest of the complete object graph across orders (TracePerm).", "5 C03"),
